@@ -26,6 +26,7 @@ import (
 
 	"github.com/bluenviron/gortsplib/v5/internal/asyncprocessor"
 	"github.com/bluenviron/gortsplib/v5/internal/bytecounter"
+	"github.com/bluenviron/gortsplib/v5/internal/verifyield"
 	"github.com/bluenviron/gortsplib/v5/pkg/auth"
 	"github.com/bluenviron/gortsplib/v5/pkg/base"
 	"github.com/bluenviron/gortsplib/v5/pkg/conn"
@@ -958,6 +959,7 @@ func (c *Client) doClose() {
 		c.stopTransportRoutines()
 	}
 
+	verifyield.Point("client.doClose.beforeTeardown")
 	if c.nconn != nil && c.baseURL != nil {
 		header := base.Header{}
 
@@ -972,6 +974,7 @@ func (c *Client) doClose() {
 		}, true)
 	}
 
+	verifyield.Point("client.doClose.beforeConnClose")
 	if c.reader != nil {
 		c.nconn.Close()
 		c.reader.close()
@@ -984,6 +987,7 @@ func (c *Client) doClose() {
 		c.conn = nil
 	}
 
+	verifyield.Point("client.doClose.beforeMediasClose")
 	for _, cm := range c.setuppedMedias {
 		cm.close()
 	}
